@@ -58,19 +58,44 @@ func (agePlugin) PostAccept(s erpc.PreSession) *erpc.Status {
 
 var opKinds = []string{"call", "call", "asynccall", "inspect", "inspect", "push", "rpush", "rcall", "setid", "swapstore", "swapload", "swaprange", "ages", "health", "closenotify", "getsession", "rangesession", "countsession", "close"}
 
+// operations that do not involve a network round trip
+var localOps = map[string]bool{"setid": true, "swapstore": true, "swapload": true, "swaprange": true, "ages": true, "health": true,
+	"closenotify": true, "getsession": true, "rangesession": true, "countsession": true, "inspect": true}
+
 type prog struct {
 	Proto   string
 	Links   int
 	Workers [][]string
 	LogInfo bool
 	Pipe    bool
+	Burst   int // every worker repeats its op list this many times (contention bursts: few workers, few ops, many rounds)
 }
 
 func genProg(t *rapid.T, protos []vt.NamedProto) prog {
 	p := prog{Proto: rapid.SampledFrom(protos).Draw(t, "proto").Name, Links: rapid.IntRange(1, 2).Draw(t, "links")}
-	n := rapid.IntRange(2, 10).Draw(t, "workers")
-	for i := 0; i < n; i++ {
-		p.Workers = append(p.Workers, rapid.SliceOfN(rapid.SampledFrom(opKinds), 1, 12).Draw(t, "ops"))
+	p.Burst = rapid.SampledFrom([]int{1, 1, 1, 40, 400}).Draw(t, "burst")
+	if p.Burst > 1 {
+		// a narrow window between two operations needs the same pair to meet many times: all
+		// workers draw from a focus set of 1-3 operation kinds and repeat them
+		focus := rapid.SliceOfNDistinct(rapid.SampledFrom(opKinds[:len(opKinds)-1]), 1, 3, rapid.ID[string]).Draw(t, "focus")
+		local := true
+		for _, f := range focus {
+			if !localOps[f] {
+				local = false
+			}
+		}
+		if local && p.Burst == 400 {
+			p.Burst = 3000 // no network round trips involved: cheap
+		}
+		n := rapid.IntRange(2, 4).Draw(t, "workers")
+		for i := 0; i < n; i++ {
+			p.Workers = append(p.Workers, rapid.SliceOfN(rapid.SampledFrom(focus), 1, 3).Draw(t, "ops"))
+		}
+	} else {
+		n := rapid.IntRange(2, 10).Draw(t, "workers")
+		for i := 0; i < n; i++ {
+			p.Workers = append(p.Workers, rapid.SliceOfN(rapid.SampledFrom(opKinds), 1, 12).Draw(t, "ops"))
+		}
 	}
 	p.LogInfo = os.Getenv("VERIF_C14_LOG") == "info"
 	p.Pipe = rapid.Bool().Draw(t, "pipe")
@@ -123,73 +148,78 @@ func runProg(p prog, protos []vt.NamedProto) (sameSessionPairs int) {
 			defer wg.Done()
 			l := links[wi%len(links)]
 			atomic.AddInt32(&touched[wi%len(links)], 1)
-			ch := make(chan erpc.CallCmd, len(ops)+1)
+			ch := make(chan erpc.CallCmd, len(ops)*p.Burst+1)
 			var cmds []erpc.CallCmd
-			for oi, op := range ops {
-				arg := &RArg{S: fmt.Sprintf("w%do%d", wi, oi), N: wi*100 + oi}
-				switch op {
-				case "call":
-					cmds = append(cmds, l.A.Call(callR, arg, new(RArg), settings...))
-				case "asynccall":
-					cmds = append(cmds, l.A.AsyncCall(callR, arg, new(RArg), ch, settings...))
-				case "inspect":
-					// everything a completed call hands out may be read while other traffic flows
-					for _, c := range cmds {
+			for round := 0; round < p.Burst; round++ {
+				if len(cmds) > 64 {
+					cmds = cmds[:0]
+				}
+				for oi, op := range ops {
+					arg := &RArg{S: fmt.Sprintf("w%do%d", wi, oi), N: wi*100 + oi}
+					switch op {
+					case "call":
+						cmds = append(cmds, l.A.Call(callR, arg, new(RArg), settings...))
+					case "asynccall":
+						cmds = append(cmds, l.A.AsyncCall(callR, arg, new(RArg), ch, settings...))
+					case "inspect":
+						// everything a completed call hands out may be read while other traffic flows
+						for _, c := range cmds {
+							select {
+							case <-c.Done():
+								c.StatusOK()
+								_ = c.Status().Code()
+								if m := c.InputMeta(); m != nil {
+									m.Peek("k")
+									m.VisitAll(func(k, v []byte) {})
+								}
+								c.InputBodyCodec()
+								c.CostTime()
+								if r, _ := c.Reply(); r != nil {
+									_ = r.(*RArg).S
+								}
+							default:
+							}
+						}
+					case "push":
+						l.A.Push(pushR, arg, settings...)
+					case "rpush":
+						l.B.Push(pushR, arg, settings...)
+					case "rcall":
+						l.B.Call(callR, arg, new(RArg), settings...)
+					case "setid":
+						l.B.SetID(fmt.Sprintf("id-%d", atomic.AddInt64(&idc, 1)))
+					case "swapstore":
+						l.B.Swap().Store(fmt.Sprintf("k%d", oi%3), wi)
+					case "swapload":
+						l.B.Swap().Load(fmt.Sprintf("k%d", oi%3))
+					case "swaprange":
+						l.A.Swap().Range(func(k, v interface{}) bool { return true })
+					case "ages":
+						_ = l.B.SessionAge()
+						_ = l.B.ContextAge()
+						_ = l.A.ContextAge()
+					case "health":
+						l.A.Health()
+						l.B.Health()
+					case "closenotify":
 						select {
-						case <-c.Done():
-							c.StatusOK()
-							_ = c.Status().Code()
-							if m := c.InputMeta(); m != nil {
-								m.Peek("k")
-								m.VisitAll(func(k, v []byte) {})
-							}
-							c.InputBodyCodec()
-							c.CostTime()
-							if r, _ := c.Reply(); r != nil {
-								_ = r.(*RArg).S
-							}
+						case <-l.B.CloseNotify():
 						default:
 						}
-					}
-				case "push":
-					l.A.Push(pushR, arg, settings...)
-				case "rpush":
-					l.B.Push(pushR, arg, settings...)
-				case "rcall":
-					l.B.Call(callR, arg, new(RArg), settings...)
-				case "setid":
-					l.B.SetID(fmt.Sprintf("id-%d", atomic.AddInt64(&idc, 1)))
-				case "swapstore":
-					l.B.Swap().Store(fmt.Sprintf("k%d", oi%3), wi)
-				case "swapload":
-					l.B.Swap().Load(fmt.Sprintf("k%d", oi%3))
-				case "swaprange":
-					l.A.Swap().Range(func(k, v interface{}) bool { return true })
-				case "ages":
-					_ = l.B.SessionAge()
-					_ = l.B.ContextAge()
-					_ = l.A.ContextAge()
-				case "health":
-					l.A.Health()
-					l.B.Health()
-				case "closenotify":
-					select {
-					case <-l.B.CloseNotify():
-					default:
-					}
-				case "getsession":
-					srv.GetSession(l.B.ID())
-				case "rangesession":
-					srv.RangeSession(func(s erpc.Session) bool { _ = s.ID(); return true })
-				case "countsession":
-					srv.CountSession()
-					cli.CountSession()
-				case "close":
-					if oi == len(ops)-1 { // closing ends the fun for everybody: only as a last op
-						if wi%2 == 0 {
-							l.B.Close()
-						} else {
-							l.A.Close()
+					case "getsession":
+						srv.GetSession(l.B.ID())
+					case "rangesession":
+						srv.RangeSession(func(s erpc.Session) bool { _ = s.ID(); return true })
+					case "countsession":
+						srv.CountSession()
+						cli.CountSession()
+					case "close":
+						if oi == len(ops)-1 { // closing ends the fun for everybody: only as a last op
+							if wi%2 == 0 {
+								l.B.Close()
+							} else {
+								l.A.Close()
+							}
 						}
 					}
 				}
@@ -208,12 +238,12 @@ func runProg(p prog, protos []vt.NamedProto) (sameSessionPairs int) {
 }
 
 func TestC14Programs(t *testing.T) {
-	rec := vt.NewRec(t, "C14", "programs", "generated concurrent programs: 2-10 goroutines each running 1-12 documented-safe operations (Call, AsyncCall, inspection of completed calls' status/result/reply metadata, Push in both directions, handler replies, SetID, Swap store/load/range, age getters, Health, CloseNotify, GetSession, RangeSession, CountSession, Close as a last op) on 1-2 shared sessions between two peers, protocols raw/json/pb, with/without a filter pipe, a second process runs the same generator with run-logging at INFO and PrintDetail; oracle: the Go race detector (binary built with -race), reports are parsed by the driver and count only if both accesses are in framework code; non-trivial = >=2 goroutines touched the same session (measured); distinct by program")
+	rec := vt.NewRec(t, "C14", "programs", "generated concurrent programs: 2-10 goroutines each running 1-12 documented-safe operations (Call, AsyncCall, inspection of completed calls' status/result/reply metadata, Push in both directions, handler replies, SetID, Swap store/load/range, age getters, Health, CloseNotify, GetSession, RangeSession, CountSession, Close as a last op) on 1-2 shared sessions between two peers, two programs in five as contention bursts (2-4 goroutines repeating 1-3 operations drawn from a per-program focus set of 1-3 kinds, 40 / 400 times, 3000 times when no network round trip is involved), protocols raw/json/pb, with/without a filter pipe, a second process runs the same generator with run-logging at INFO and PrintDetail; oracle: the Go race detector (binary built with -race), reports are parsed by the driver and count only if both accesses are in framework code; non-trivial = >=2 goroutines touched the same session (measured); distinct by program")
 	protos := vt.StreamProtos()
 	rapid.Check(t, func(t *rapid.T) {
 		p := genProg(t, protos)
 		shared := runProg(p, protos)
-		rec.Case(fmt.Sprintf("%+v", p), shared > 0, "proto="+p.Proto, fmt.Sprintf("loginfo=%v", p.LogInfo))
+		rec.Case(fmt.Sprintf("%+v", p), shared > 0, "proto="+p.Proto, fmt.Sprintf("loginfo=%v", p.LogInfo), fmt.Sprintf("burst=%d", p.Burst))
 		for _, ops := range p.Workers {
 			for _, o := range ops {
 				rec.Class("op="+o, 1)
@@ -223,4 +253,35 @@ func TestC14Programs(t *testing.T) {
 			rec.Sample(p)
 		}
 	})
+}
+
+// TestC14Pairs is the systematic part: every unordered pair of operation kinds (a kind with
+// itself included) meets on one session, two goroutines per kind, many rounds.
+func TestC14Pairs(t *testing.T) {
+	rec := vt.NewRec(t, "C14", "pairs", "pairwise contention sweep: for every unordered pair {X, Y} of the documented-safe operation kinds (X = Y included; Close excluded) two goroutines repeat X and two repeat Y on the same session (raw protocol), VERIF_C14_ROUNDS rounds each for operations without a network round trip and a tenth of that otherwise; oracle: the Go race detector; every case is non-trivial; the pair list is enumerated completely")
+	kinds := []string{}
+	seen := map[string]bool{}
+	for _, k := range opKinds {
+		if k != "close" && !seen[k] {
+			seen[k] = true
+			kinds = append(kinds, k)
+		}
+	}
+	rounds := 1500
+	if v := os.Getenv("VERIF_C14_ROUNDS"); v != "" {
+		fmt.Sscanf(v, "%d", &rounds)
+	}
+	protos := vt.StreamProtos()
+	for i, x := range kinds {
+		for _, y := range kinds[i:] {
+			n := rounds
+			if !localOps[x] || !localOps[y] {
+				n = rounds / 10
+			}
+			p := prog{Proto: protos[0].Name, Links: 1, Burst: n, Workers: [][]string{{x}, {y}, {x}, {y}}}
+			runProg(p, protos)
+			rec.Case(x+"|"+y, true, "pair")
+		}
+	}
+	rec.SetExhaustive()
 }
